@@ -395,9 +395,14 @@ func (w *ckksWorld) roundTrip(c *engine.Chooser, s ckksSpec) bool {
 		c.Skip("scale too large for this level")
 		return false
 	}
-	sig := "C07/ckks/" + w.path()
-	if k := w.knownClass(s); k != "" {
-		sig = k
+	// one defect, one signature: on a configuration class that carries a triaged finding every failure of the
+	// leaf is reported under that finding's signature; elsewhere the signature names the path and the oracle.
+	cls := w.knownClass(s)
+	mk := func(what string) string {
+		if cls != "" {
+			return cls
+		}
+		return "C07/ckks/" + w.path() + "/" + what
 	}
 	pt := ckks.NewPlaintext(w.p, s.level)
 	pt.LogDimensions.Cols = s.logSlots
@@ -406,28 +411,28 @@ func (w *ckksWorld) roundTrip(c *engine.Chooser, s ckksSpec) bool {
 	dirty(pt.Value, w.p.Q())
 	err, pan := uni.Try(func() error { return w.ecd.Encode(typedInput(s.inTy, v), pt) })
 	if pan != nil {
-		failD(c, sig+"/encode-panic", "%v: Encode panicked: %v", s, pan)
+		failD(c, mk("encode-panic"), "%v: Encode panicked: %v", s, pan)
 		return false
 	}
 	if err != nil {
-		failD(c, sig+"/encode-error", "%v: Encode: %v", s, err)
+		failD(c, mk("encode-error"), "%v: Encode: %v", s, err)
 		return false
 	}
 	want := expectedSlots(v, n, s.inTy, w.cf.rt)
 	z, off, sumAbs := w.slotsOf(pt.Value, s.level, s.ntt, false, s.logSlots, s.scale)
 	if off {
-		failD(c, sig+"/outside-subring", "%v: the encoded polynomial has non-zero coefficients outside Z[X^(N/%d)]", s, len(z))
+		failD(c, mk("outside-subring"), "%v: the encoded polynomial has non-zero coefficients outside Z[X^(N/%d)]", s, len(z))
 		return false
 	}
 	et := w.encTol(s.logSlots, s.scale, maxv)
 	for j := range want {
-		d := cAbsUpper(cSub(z[j], want[j]))
-		if d.Cmp(newF().Mul(et, newF().SetInt64(2))) > 0 { // cAbsUpper <= sqrt2*|.|: compare against 2*tol
+		d := cMaxComp(cSub(z[j], want[j]))
+		if d.Cmp(et) > 0 { // per component: |re diff|, |im diff| <= |diff| <= budget
 			what := "encode-value"
 			if j >= len(v) {
 				what = "unspecified-slot-not-zero"
 			}
-			failD(c, sig+"/"+what, "%v: slot %d of the encoded polynomial is (%s, %s), want (%s, %s); |diff| = %s > budget %s",
+			failD(c, mk(what), "%v: slot %d of the encoded polynomial is (%s, %s), want (%s, %s); |diff| = %s > budget %s",
 				s, j, z[j].re.Text('g', 20), z[j].im.Text('g', 20), want[j].re.Text('g', 20), want[j].im.Text('g', 20), d.Text('g', 6), et.Text('g', 6))
 			return false
 		}
@@ -437,7 +442,7 @@ func (w *ckksWorld) roundTrip(c *engine.Chooser, s ckksSpec) bool {
 		// triaged finding: polyToComplexCRT/NoCRT (arbitrary precision, conjugate-invariant ring) subtracts from the
 		// stale imaginary parts of the encoder's internal buffer; the decode error then depends on the previous use
 		// of the encoder. Own signature; the encode oracles above are unaffected.
-		sig = "C07/ckks/arbitrary/conjugate-invariant-decode-stale-buffer"
+		cls = "C07/ckks/arbitrary/conjugate-invariant-decode-stale-buffer"
 	}
 	for outTy := 0; outTy < 4; outTy++ {
 		for _, logprec := range []float64{0, 10, 25} {
@@ -450,16 +455,16 @@ func (w *ckksWorld) roundTrip(c *engine.Chooser, s ckksSpec) bool {
 			})
 			tag := fmt.Sprintf("out=%s logprec=%v", tyNames[outTy], logprec)
 			if pan != nil {
-				failD(c, sig+"/decode-panic", "%v %s: Decode panicked: %v", s, tag, pan)
+				failD(c, mk("decode-panic"), "%v %s: Decode panicked: %v", s, tag, pan)
 				return false
 			}
 			if err != nil {
-				failD(c, sig+"/decode-error", "%v %s: Decode: %v", s, tag, err)
+				failD(c, mk("decode-error"), "%v %s: Decode: %v", s, tag, err)
 				return false
 			}
 			got, bad := readOutput(out, n)
 			if bad != "" {
-				failD(c, sig+"/decode-value", "%v %s: %s", s, tag, bad)
+				failD(c, mk("decode-value"), "%v %s: %s", s, tag, bad)
 				return false
 			}
 			floatOut := outTy == tyC128 || outTy == tyF64
@@ -470,15 +475,15 @@ func (w *ckksWorld) roundTrip(c *engine.Chooser, s ckksSpec) bool {
 				}
 				tol := w.decTol(s.logSlots, sumAbs, cAbsUpper(z[j]), floatOut)
 				if logprec != 0 {
-					tol.Add(tol, pow2(-int(logprec))) // half a unit per component, two components
+					tol.Add(tol, pow2(-int(logprec)-1)) // rounding to the nearest multiple: half a unit per component
 				}
-				d := cAbsUpper(cSub(got[j], exp))
-				if d.Cmp(newF().Mul(tol, newF().SetInt64(2))) > 0 {
+				d := cMaxComp(cSub(got[j], exp))
+				if d.Cmp(tol) > 0 {
 					what := "decode-value"
 					if logprec != 0 {
 						what = "decode-public-value"
 					}
-					failD(c, sig+"/"+what, "%v %s: slot %d decodes to (%s, %s), exact embedding (%s, %s); |diff| = %s > budget %s", s, tag, j,
+					failD(c, mk(what), "%v %s: slot %d decodes to (%s, %s), exact embedding (%s, %s); |diff| = %s > budget %s", s, tag, j,
 						got[j].re.Text('g', 20), got[j].im.Text('g', 20), exp.re.Text('g', 20), exp.im.Text('g', 20), d.Text('g', 6), tol.Text('g', 6))
 					return false
 				}
@@ -495,7 +500,7 @@ func (w *ckksWorld) roundTrip(c *engine.Chooser, s ckksSpec) bool {
 						diff.Abs(diff)
 						slack := newF().Mul(newF().Abs(x), pow2(-w.precEff()+4))
 						if diff.Cmp(slack) > 0 {
-							failD(c, sig+"/decode-public-not-a-multiple", "%v %s: slot %d component %s is not a multiple of 2^-%v", s, tag, j, comp.Text('g', 25), logprec)
+							failD(c, mk("decode-public-not-a-multiple"), "%v %s: slot %d component %s is not a multiple of 2^-%v", s, tag, j, comp.Text('g', 25), logprec)
 							return false
 						}
 					}
@@ -605,9 +610,11 @@ func ckksCoeffScenario(cf ckksConf) engine.Scenario {
 			}
 		}
 		desc := fmt.Sprintf("level=%d scale=%s ntt=%v bigfloat=%v values=%s len=%d", level, tags[si], ntt, bigIn, famNames[fam], ln)
-		sig := "C07/ckks/coeff-domain"
-		if !ntt {
-			sig = "C07/ckks/coeff-domain/not-NTT" // Encode always applies the NTT, Decode honours IsNTT
+		mk := func(what string) string {
+			if !ntt {
+				return "C07/ckks/coeff-domain/not-NTT" // triaged: Encode always applies the NTT, Decode honours IsNTT
+			}
+			return "C07/ckks/coeff-domain/" + what
 		}
 		pt := ckks.NewPlaintext(w.p, level)
 		pt.IsBatched = false
@@ -622,7 +629,7 @@ func ckksCoeffScenario(cf ckksConf) engine.Scenario {
 		}
 		err, pan := uni.Try(func() error { return w.ecd.Encode(in, pt) })
 		if pan != nil || err != nil {
-			failD(c, sig+"/encode-failed", "%s: err=%v panic=%v", desc, err, pan)
+			failD(c, mk("encode-failed"), "%s: err=%v panic=%v", desc, err, pan)
 			return
 		}
 		cs := uni.PolyCoeffs(w.p.RingQ(), pt.Value, level, ntt, false)
@@ -641,15 +648,14 @@ func ckksCoeffScenario(cf ckksConf) engine.Scenario {
 			tol := newF().Mul(newF().Abs(exp), relIn)
 			tol.Add(tol, newF().SetFloat64(0.5001))
 			if d := newF().Sub(got, exp); d.Abs(d).Cmp(tol) > 0 {
-				what := "/encode-value"
-				s2 := sig
+				s2 := mk("encode-value")
 				if k >= ln {
-					what = "/unspecified-coefficient-not-zero"
-					if bigIn {
-						s2 = "C07/ckks/coeff-domain/bigfloat-short-vector" // BigFloatToFixedPointCRT does not clear the tail
+					s2 = mk("unspecified-coefficient-not-zero")
+					if bigIn && ntt {
+						s2 = "C07/ckks/coeff-domain/bigfloat-short-vector-tail-not-cleared" // triaged: BigFloatToFixedPointCRT
 					}
 				}
-				failD(c, s2+what, "%s: coefficient %d is %s, want round(%s)", desc, k, got.Text('g', 25), exp.Text('g', 25))
+				failD(c, s2, "%s: coefficient %d is %s, want round(%s)", desc, k, got.Text('g', 25), exp.Text('g', 25))
 				return
 			}
 		}
@@ -671,13 +677,13 @@ func ckksCoeffScenario(cf ckksConf) engine.Scenario {
 			}
 			err, pan := uni.Try(func() error { return w.ecd.Decode(pt, out) })
 			if pan != nil || err != nil {
-				failD(c, sig+"/decode-failed", "%s out=%s: err=%v panic=%v", desc, tyNames[outTy], err, pan)
+				failD(c, mk("decode-failed"), "%s out=%s: err=%v panic=%v", desc, tyNames[outTy], err, pan)
 				return
 			}
 			got, bad := readOutput(out, w.N)
 			if bad != "" {
 				// []*bignum.Complex outputs: the imaginary part is left nil by the coefficient-domain decoder
-				failD(c, sig+"/decode-value", "%s out=%s: %s", desc, tyNames[outTy], bad)
+				failD(c, mk("decode-value"), "%s out=%s: %s", desc, tyNames[outTy], bad)
 				return
 			}
 			rel := pow2(-49)
@@ -687,7 +693,7 @@ func ckksCoeffScenario(cf ckksConf) engine.Scenario {
 			for k := range exact {
 				tol := newF().Mul(newF().Abs(exact[k]), rel)
 				if d := newF().Sub(got[k].re, exact[k]); d.Abs(d).Cmp(tol) > 0 || got[k].im.Sign() != 0 {
-					failD(c, sig+"/decode-value", "%s out=%s: coefficient %d decodes to (%s,%s), exact %s", desc, tyNames[outTy], k, got[k].re.Text('g', 25), got[k].im.Text('g', 5), exact[k].Text('g', 25))
+					failD(c, mk("decode-value"), "%s out=%s: coefficient %d decodes to (%s,%s), exact %s", desc, tyNames[outTy], k, got[k].re.Text('g', 25), got[k].im.Text('g', 5), exact[k].Text('g', 25))
 					return
 				}
 			}
@@ -759,8 +765,8 @@ func ckksProductScenario(cf ckksConf) engine.Scenario {
 			tol.Add(tol, newF().Mul(cAbsUpper(eb[j]), ta))
 			tol.Add(tol, newF().Mul(ta, tb))
 			tol.Add(tol, w.decTol(logSlots, sum, cAbsUpper(exp), false))
-			d := cAbsUpper(cSub(got[j], exp))
-			if d.Cmp(newF().Mul(tol, newF().SetInt64(2))) > 0 {
+			d := cMaxComp(cSub(got[j], exp))
+			if d.Cmp(tol) > 0 {
 				failD(c, "C07/ckks/product/value", "logSlots=%d in=%s: slot %d of the product decodes to (%s,%s), want (%s,%s), |diff|=%s budget %s", logSlots, tyNames[inTy], j,
 					got[j].re.Text('g', 18), got[j].im.Text('g', 18), exp.re.Text('g', 18), exp.im.Text('g', 18), d.Text('g', 6), tol.Text('g', 6))
 				return
@@ -818,7 +824,7 @@ func ckksFFTScenario(cf ckksConf) engine.Scenario {
 		}
 		for j := range want {
 			tol := w.decTol(logn, sum, cAbsUpper(want[j]), false)
-			if d := cAbsUpper(cSub(got[j], want[j])); d.Cmp(newF().Mul(tol, newF().SetInt64(2))) > 0 {
+			if d := cMaxComp(cSub(got[j], want[j])); d.Cmp(tol) > 0 {
 				failD(c, "C07/ckks/FFT/value", "logn=%d: FFT output %d is (%s,%s), direct evaluation (%s,%s)", logn, j, got[j].re.Text('g', 18), got[j].im.Text('g', 18), want[j].re.Text('g', 18), want[j].im.Text('g', 18))
 				return
 			}
@@ -832,7 +838,7 @@ func ckksFFTScenario(cf ckksConf) engine.Scenario {
 		tol := newF().Mul(w.ulps(logn), newF().Mul(sum, newF().SetInt64(int64(2*safety))))
 		for k := range u {
 			exp := cplx{fFrom(real(u[k])), fFrom(imag(u[k]))}
-			if d := cAbsUpper(cSub(back[k], exp)); d.Cmp(newF().Mul(tol, newF().SetInt64(2))) > 0 {
+			if d := cMaxComp(cSub(back[k], exp)); d.Cmp(tol) > 0 {
 				failD(c, "C07/ckks/IFFT/value", "logn=%d: IFFT(FFT(u))[%d] = (%s,%s), want %v", logn, k, back[k].re.Text('g', 18), back[k].im.Text('g', 18), u[k])
 				return
 			}
